@@ -204,6 +204,9 @@ pub struct PubRecord {
     pub attrs_hash: u64,
 }
 
+/// Client-visible events recorded in this process (all episodes): read by the livelock watchdog.
+pub static GLOBAL_EVENTS: AtomicU64 = AtomicU64::new(0);
+
 pub struct Recorder {
     seq: AtomicU64,
     next_op: AtomicU64,
@@ -236,6 +239,7 @@ impl Recorder {
     }
 
     pub fn push(&self, vt: Vt, client: u32, kind: EvKind) -> u64 {
+        GLOBAL_EVENTS.fetch_add(1, Ordering::Relaxed);
         // seq is assigned under the lock so that seq order = vector order.
         let mut evs = self.events.lock().unwrap_or_else(|e| e.into_inner());
         let seq = self.seq.fetch_add(1, Ordering::SeqCst);
